@@ -133,9 +133,9 @@ def audit(modules):
     seen = set()
     # parse: 'X' depends on axioms: [a, b]   |   'X' does not depend on any axioms
     dep = {}
-    for m in re.finditer(r"'([^']+)' depends on axioms: \[([^\]]*)\]", out, flags=re.S):
+    for m in re.finditer(r"^'([^\n]+)' depends on axioms: \[([^\]]*)\]", out, flags=re.M):
         dep[m.group(1)] = {a.strip() for a in m.group(2).replace("\n", " ").split(",") if a.strip()}
-    for m in re.finditer(r"'([^']+)' does not depend on any axioms", out):
+    for m in re.finditer(r"^'([^\n]+)' does not depend on any axioms", out, flags=re.M):
         dep[m.group(1)] = set()
     for mod, n in names:
         if n not in dep:
